@@ -116,6 +116,23 @@ func genC01(rng *rand.Rand, trial int) *c01Spec {
 		l := sp.Links[rng.Intn(len(sp.Links))]
 		sp.Script = append(sp.Script, c01Event{Kind: "parallel", A: l.A, B: l.B, Gap: gaps[rng.Intn(len(gaps))]})
 	}
+	if trial%6 == 3 && !dense && n >= 3 && len(sp.Links) > 0 {
+		// restart after a long uptime: the node has originated many updates, is restarted (new epoch, sequence numbers
+		// start again) and then gains or loses a link; everybody must follow the new incarnation within the usual bound
+		l := sp.Links[rng.Intn(len(sp.Links))]
+		x := l.A
+		sp.Script = append(sp.Script, c01Event{Kind: "restart", A: x, Gap: 12000})
+		other := sp.Nodes[rng.Intn(n)]
+		if other != x && !has[x+"|"+other] && !has[other+"|"+x] {
+			has[x+"|"+other] = true
+			ls[x+"|"+other] = &lstate{up: true}
+			sp.Script = append(sp.Script, c01Event{Kind: "new", A: x, B: other, Cost: c01Costs[rng.Intn(len(c01Costs))], Gap: 400})
+		} else {
+			ls[l.A+"|"+l.B].up = false
+			sp.Script = append(sp.Script, c01Event{Kind: "down", A: l.A, B: l.B, Gap: 400})
+		}
+		ne = 0
+	}
 	for k := 0; k < ne; k++ {
 		e := c01Event{Gap: gaps[rng.Intn(len(gaps))]}
 		switch r := rng.Intn(100); {
@@ -675,7 +692,7 @@ func specKey(sp *c01Spec) string {
 
 func runC01(tier string, args []string) {
 	run := ev.New("C01", tier, "exploration")
-	run.Rule("seeded random weighted graphs (2-9 nodes, connected or partitioned, per-node cost overrides on a third of links) + scripts of 0-12 events (link down/up/new, silent failure, node stop, abrupt death, restart) with control-message delay per link; after the last event wait |V|+6 originated update rounds (+idle-timer rounds when a silent failure/death occurred), then compare every node's RoutingTable/PathCost with Floyd-Warshall on the harness link table at 3 evaluations; distinct_nontrivial = distinct (graph, script) with >=1 event and >=3 nodes")
+	run.Rule("seeded random weighted graphs (2-9 nodes, connected or partitioned, per-node cost overrides on a third of links) + scripts of 0-12 events (link down/up/new, silent failure, node stop, abrupt death, restart; a sixth of the trials: restart after 12 s of uptime followed by a link change at the restarted node; a fifth: parallel sessions between connected pairs) with control-message delay per link; after the last event wait |V|+6 originated update rounds (+idle-timer rounds when a silent failure/death occurred), then compare every node's RoutingTable/PathCost with Floyd-Warshall on the harness link table at 3 evaluations; distinct_nontrivial = distinct (graph, script) with >=1 event and >=3 nodes")
 	trials := run.Pick(48, 600)
 	par := 16
 	rng := rand.New(rand.NewSource(run.Seed*1000 + 1))
